@@ -44,12 +44,32 @@ func fail(t *rapid.T, prop, key, format string, args ...any) {
 		if _, err := os.Stat(name); err != nil {
 			os.WriteFile(name, []byte(fmt.Sprintf(format, args...)), 0o644)
 		}
+		surveyLog(dir, prop+"/"+key)
 		panic(surveySkip{})
 	}
 	t.Fatalf("VKEY=%s/%s %s", prop, key, fmt.Sprintf(format, args...))
 }
 
 type surveySkip struct{}
+
+// survey mode (VERIF_SURVEY=<dir>, exploration only): every case of a test
+// that sets surveyTagFn leaves a line "<tag>\t<outcome>" in outcomes.tsv.
+var (
+	surveyTag   string
+	surveyTagFn func(model any) string
+)
+
+func surveyLog(dir, outcome string) {
+	if surveyTag == "" {
+		return
+	}
+	f, err := os.OpenFile(dir+"/outcomes.tsv", os.O_APPEND|os.O_CREATE|os.O_WRONLY, 0o644)
+	if err == nil {
+		fmt.Fprintf(f, "%s\t%s\n", surveyTag, outcome)
+		f.Close()
+	}
+	surveyTag = ""
+}
 
 func workRoot(t interface{ Fatalf(string, ...any) }) string {
 	w := os.Getenv("VERIF_WORK")
